@@ -29,6 +29,21 @@ class Net:
         self.frag = None            # max bytes handed out per recv (None = as much as asked)
         self.log = None             # optional callable(event dict)
         self.hook = None            # fault layer for client-side sockets: before_send(sock, data) -> data | None, before_recv(sock)
+        self.server_fds = set()     # descriptor numbers in use on the server side (lowest free number is handed out, as an OS does)
+        self.client_fd = 1000
+
+    def alloc_fd(self, server):
+        if not server:
+            self.client_fd += 1
+            return self.client_fd
+        fd = 3
+        while fd in self.server_fds:
+            fd += 1
+        self.server_fds.add(fd)
+        return fd
+
+    def free_fd(self, fd):
+        self.server_fds.discard(fd)
 
     def create_socket(self, bind=None, connect=None, reuseaddr=False, keepalive=True, timeout=-1, noinherit=False,
                       ipv6=False, nodelay=True, sslContext=None):
@@ -71,6 +86,7 @@ class FakeListen:
         self.backlog = collections.deque()
         self.closed = False
         self._timeout = None
+        self.fd = net.alloc_fd(True)
 
     def getsockname(self):
         return self.addr
@@ -88,13 +104,16 @@ class FakeListen:
             if self.closed:
                 raise OSError(errno.EBADF, "bad file descriptor")
         s = self.backlog.popleft()
+        s.fd = self.net.alloc_fd(True)       # the accepted socket gets its descriptor now
         return s, s.raddr
 
     def close(self):
-        self.closed = True
+        if not self.closed:
+            self.closed = True
+            self.net.free_fd(self.fd)
 
     def fileno(self):
-        return -1
+        return -1 if self.closed else self.fd
 
     def settimeout(self, t):
         self._timeout = t
@@ -131,6 +150,7 @@ class FakeSock:
         self.consumed = 0         # bytes handed out by recv
         self.frag = None
         self.reset_after_drain = False   # reset once the buffered bytes have been read
+        self.fd = net.alloc_fd(False) if client else None
 
     def getsockname(self):
         return self.laddr
@@ -141,7 +161,7 @@ class FakeSock:
         return self.raddr
 
     def fileno(self):
-        return -1
+        return -1 if self.closed or self.fd is None else self.fd
 
     def settimeout(self, t):
         self._timeout = t
@@ -219,11 +239,15 @@ class FakeSock:
     def close(self):
         if not self.closed:
             self.closed = True
+            if not self.client and self.fd is not None:
+                self.net.free_fd(self.fd)
             if self.peer is not None:
                 self.peer.eof = True
 
     def abort(self):
         """environment: reset the connection (both directions)"""
+        if not self.closed and not self.client and self.fd is not None:
+            self.net.free_fd(self.fd)
         self.closed = True
         if self.peer is not None:
             self.peer.reset = True
@@ -233,16 +257,36 @@ class FakeSock:
 
 
 class FakeSelector:
+    """keyed by descriptor number like the real selectors: a closed file object cannot be registered, a number that is still
+    registered cannot be registered again, and a closed descriptor is never reported ready"""
     def __init__(self):
         self.map = {}
 
+    @staticmethod
+    def _fd(fileobj):
+        fd = fileobj.fileno()
+        if fd < 0:
+            raise ValueError("Invalid file descriptor: {}".format(fd))
+        return fd
+
     def register(self, fileobj, events, data=None):
-        if fileobj in self.map:
-            raise KeyError("already registered")
-        self.map[fileobj] = _selectors.SelectorKey(fileobj, id(fileobj), events, data)
+        fd = self._fd(fileobj)
+        if fd in self.map:
+            raise KeyError("{!r} (FD {}) is already registered".format(fileobj, fd))
+        self.map[fd] = _selectors.SelectorKey(fileobj, fd, events, data)
 
     def unregister(self, fileobj):
-        return self.map.pop(fileobj)
+        try:
+            fd = self._fd(fileobj)
+        except ValueError:
+            for fd, key in self.map.items():        # a closed object is looked up by identity, as the real selectors do
+                if key.fileobj is fileobj:
+                    break
+            else:
+                raise KeyError("{!r} is not registered".format(fileobj)) from None
+        if fd not in self.map or self.map[fd].fileobj is not fileobj and self.map[fd].fileobj.fileno() >= 0 and fileobj.fileno() < 0:
+            raise KeyError("{!r} is not registered".format(fileobj))
+        return self.map.pop(fd)
 
     def get_map(self):
         return self.map
@@ -252,8 +296,11 @@ class FakeSelector:
 
     def select(self, timeout=None):
         out = []
-        for f, key in list(self.map.items()):
+        for fd, key in list(self.map.items()):
+            f = key.fileobj
             s = getattr(f, "sock", f)
+            if s.fileno() < 0:
+                continue
             if s.readable():
                 out.append((key, EVENT_READ))
         return out
